@@ -55,15 +55,18 @@ def impl_env(extra=None):
     env["PYTHONHASHSEED"] = "0"
     cache = os.path.join(RUN, "numba", _TREE)
     os.makedirs(cache, exist_ok=True)
-    # keep at most 3 cache generations
+    # drop cache generations not used for 3 hours (never one that may be in use by a
+    # concurrent check against another tree)
+    os.utime(cache, None)
     parent = os.path.dirname(cache)
-    gens = sorted(
-        (os.path.join(parent, d) for d in os.listdir(parent)),
-        key=lambda p: os.path.getmtime(p),
-    )
-    for old in gens[:-3]:
-        if old != cache:
-            subprocess.run(["rm", "-rf", old])
+    now = time.time()
+    for d in os.listdir(parent):
+        pth = os.path.join(parent, d)
+        try:
+            if pth != cache and now - os.path.getmtime(pth) > 3 * 3600:
+                subprocess.run(["rm", "-rf", pth])
+        except OSError:
+            pass
     env["NUMBA_CACHE_DIR"] = cache
     env["PIQUASSO_VERIF"] = "1"
     env["TF_CPP_MIN_LOG_LEVEL"] = "3"
